@@ -17,6 +17,7 @@ package tree
 //@ extern (*cache.Update).Value
 //@   noeffect
 //@   ensures r0 == tvOf(u)
+//@   ensures r1 == nil ==> r0 != nil
 
 // value equality (utils.EqualTypedValues) is a deterministic function of the two typed values: declared `pure`
 // on its own contract in package utils (property C12)
@@ -344,3 +345,35 @@ package tree
 //@   loop 0 invariant $map == idx && result <= 2147483647
 //@   loop 0 invariant allstr(k, $visited[k] && strings.HasPrefix(k, pk) ==> result <= idx[k].GetLowestPriorityValue(branchFilters))
 //@   loop 0 invariant result == 2147483647 || exstr(k, $visited[k] && present(idx, k) && strings.HasPrefix(k, pk) && idx[k].GetLowestPriorityValue(branchFilters) == result)
+
+// ---------------------------------------------------------------------------
+// C04: range validation — every element of the value the validators see must lie in one of the ranges
+
+//@ pred rangesOK(rs) = forall(i, 0, len(rs), rs[i] != nil && rs[i].Min != nil && rs[i].Max != nil && rs[i].Min.Value <= 9223372036854775807 && rs[i].Max.Value <= 9223372036854775807)
+//@ pred inURange(rs, v) = exists(i, 0, len(rs), rs[i].Min.Value <= v && v <= rs[i].Max.Value)
+//@ pred sBound(n) = ite(n.Negative, 0 - n.Value, n.Value)
+//@ pred inSRange(rs, v) = exists(i, 0, len(rs), sBound(rs[i].Min) <= v && v <= sBound(rs[i].Max))
+//@ pred isUnsignedType(n) = n == "uint8" || n == "uint16" || n == "uint32" || n == "uint64"
+//@ pred isSignedType(n) = n == "int8" || n == "int16" || n == "int32" || n == "int64"
+// the verdict of one element under a type schema
+//@ pred elemOK(ts, e) = (isUnsignedType(ts.TypeName) ==> inURange(ts.Range, e.GetUintVal())) && (isSignedType(ts.TypeName) ==> inSRange(ts.Range, e.GetIntVal()))
+
+// The verdict of validateRange is composed of proved parts: URnges/SRnges.AddRange and IsWithinAnyRange have full
+// contracts (package utils); here the wiring is asserted for every iteration: each declared range is added with its own
+// bounds, the value that is checked is the element of the current iteration, and an element out of range is reported.
+//@ func (*sharedEntryAttributes).validateRange
+//@   props C04
+//@   requires s != nil && lvFull(s.leafVariants)
+//@   requires s.schema != nil ==> (s.schema.GetField().GetType() != nil ==> rangesOK(s.schema.GetField().GetType().Range)) && (s.schema.GetLeaflist().GetType() != nil ==> rangesOK(s.schema.GetLeaflist().GetType().Range))
+//@   uses GetHighestPrecedence: member view_is_total
+//@   let n0 = ntrace()
+//@   ensures no_schema_is_silent: s.schema == nil ==> ntrace() == n0
+//@   loop 0 invariant ntrace() >= n0 && typeSchema != nil && rangesOK(typeSchema.Range)
+//@   loop 0 invariant unsigned_checks_current_element: called(URnges_IsWithinAnyRange) ==> callarg(URnges_IsWithinAnyRange, 0, 1) == tvs[$i].GetUintVal()
+//@   loop 0 invariant signed_checks_current_element: called(SRnges_IsWithinAnyRange) ==> callarg(SRnges_IsWithinAnyRange, 0, 1) == tvs[$i].GetIntVal()
+//@   loop 0 invariant unsigned_out_of_range_is_reported: called(URnges_IsWithinAnyRange) && !callres(URnges_IsWithinAnyRange) ==> ntrace() > n0
+//@   loop 0 invariant signed_out_of_range_is_reported: called(SRnges_IsWithinAnyRange) && !callres(SRnges_IsWithinAnyRange) ==> ntrace() > n0
+//@   loop 1 invariant urngesOK(urnges) && len(urnges.rnges) == $n && typeSchema != nil && rangesOK(typeSchema.Range)
+//@   loop 1 invariant unsigned_range_bounds: called(URnges_AddRange) ==> callarg(URnges_AddRange, 0, 1) == typeSchema.Range[$i].Min.Value && callarg(URnges_AddRange, 0, 2) == typeSchema.Range[$i].Max.Value
+//@   loop 2 invariant srngesOK(srnges) && len(srnges.rnges) == $n && typeSchema != nil && rangesOK(typeSchema.Range)
+//@   loop 2 invariant signed_range_bounds: called(SRnges_AddRange) ==> callarg(SRnges_AddRange, 0, 1) == sBound(typeSchema.Range[$i].Min) && callarg(SRnges_AddRange, 0, 2) == sBound(typeSchema.Range[$i].Max)
